@@ -61,6 +61,7 @@ TPL = ("TPLGaussian", "TPLExponential", "TPLStable")
 # others (Integral, JBessel, truncated power law with len_low > 0) the least squares landscape
 # has descent directions towards len_scale -> 0 even for exact data (traced with scipy TRF),
 # which is a property of the optimisation problem, not of the fitting code
+SMOOTH = ("Gaussian", "Exponential", "Stable", "Matern", "Rational")
 WELL_POSED = ("Gaussian", "Exponential", "Spherical", "Cubic", "Circular", "Stable", "Matern",
               "HyperSpherical", "Rational", "SuperSpherical")
 
@@ -207,6 +208,20 @@ class Party:
                     q[j] = q[j] + h if q[j] + h < self.hi[j] else q[j] - h
                     self.evaluate(q)
                 ctx.fired("optimizer_order")
+            elif a == "punished":
+                # a point inside the optimizer's box where sill - var falls below the lower
+                # nugget bound: GSTools must answer with infinite residuals (documented
+                # "punishment"), never with a silently different curve
+                ex = self.expect
+                nb = ex.bounds["nugget"]
+                if ex.constrain and ex.fitted["var"] and nb[0] > 0 and "var" in ex.order:
+                    q = self._point(act["u"])
+                    j = ex.order.index("var")
+                    v = ex.sill - 0.5 * nb[0]
+                    if self.lo[j] < v < self.hi[j]:
+                        q[j] = v
+                        self.evaluate(q)
+                        ctx.probe("punished_point_evaluated")
             elif a == "raise":
                 # curve_fit gives up (as scipy does with "Optimal parameters not found"): the
                 # fit fails half-way, the model keeps the last evaluated parameters
@@ -440,7 +455,8 @@ class Machine:
                                       else ["current", "current", "dict"])
         kw["method"] = rng.choice(["trf", "trf", "dogbox"])
         kw["loss"] = rng.choice(["soft_l1", "linear", "huber"])
-        kw["bounds"] = rng.random() < 0.25
+        kw["bounds"] = rng.random() < 0.3
+        kw["nugget_low"] = rng.choice([0.0, 0.0, 0.05, 0.2])
         kw["shared_kwargs"] = rng.random() < 0.4
         if sim and rng.random() < 0.15:
             kw["rescale"] = rng.choice([0.5, 1.0, 2.0, 3.0])
@@ -451,6 +467,8 @@ class Machine:
                 r = rng.random()
                 if r < 0.05:
                     sched.append({"a": "raise"})
+                elif r < 0.15:
+                    sched.append({"a": "punished", "u": [round(rng.random(), 3) for _ in range(8)]})
                 elif r < 0.55:
                     sched.append({"a": "eval", "u": [round(rng.random(), 3) for _ in range(8)]})
                 elif r < 0.8:
@@ -484,8 +502,11 @@ class Machine:
             cur = read(m)
             vmax = max(cur["var"], t["var"]) * 4 + 1
             lmax = max(cur["len_scale"], t["len_scale"]) * 6
+            nlow = kw.get("nugget_low", 0.0)
+            if nlow > min(cur["nugget"], t["nugget"]):
+                nlow = 0.0
             m.set_arg_bounds(var=[1e-3, vmax], len_scale=[1e-3 * t["len_scale"], lmax],
-                             nugget=[0.0, max(cur["nugget"], t["nugget"]) * 3 + 1.0, "cc"])
+                             nugget=[nlow, max(cur["nugget"], t["nugget"]) * 3 + 1.0, "cc"])
             self.ctx.probe("custom_bounds")
         if op["party"] == "real":
             # fault free configuration = "from a start near the truth": the user assigns
@@ -548,7 +569,7 @@ class Machine:
             vb, nb = exp.bounds["var"], exp.bounds["nugget"]
             if not (vb[0] + nb[0] <= exp.sill <= vb[1] + nb[1]):
                 raise Inapplicable("sill outside bounds")
-            if exp.st["nugget"] < nb[0] - 1e-12 or exp.st["var"] <= 0 or \
+            if exp.st["nugget"] < nb[0] or exp.st["var"] <= 0 or \
                     exp.st["nugget"] > nb[1] or exp.st["var"] > vb[1]:
                 raise Inapplicable("fixed var/nugget not compatible with the sill")
         if exp.n == 0:
@@ -692,9 +713,20 @@ class Machine:
             # from unweighted fits; the final-state invariants above hold for all fits
             self.ctx.probe("recovery.skipped_weighted")
             return
-        if not r2 >= 1 - 1e-6:
+        if kw.get("method") != "trf":
+            # dogbox stops early on kinked (compact support) models and steps onto bounds
+            # (see the open known finding): recovery is demanded from the default method only
+            self.ctx.probe("recovery.skipped_dogbox")
+            return
+        smooth = t["cls"] in SMOOTH
+        # compact-support models have a kink at the range: a local optimizer may stall next to
+        # the optimum (traced: r2 = 0.998), so only a coarse threshold is sound for them
+        if not r2 >= (1 - 1e-6 if smooth else 0.99):
             raise Violation("C10.recovery.r2", r2=float(r2), cls=t["cls"], kind=self.kind,
                             method=kw.get("method"), loss=kw.get("loss"))
+        if not smooth:
+            self.ctx.probe("recovery.coarse_only_compact_support")
+            return
         xf = np.tile(self.x, self.dim) if self.kind == "dir" else (
             great_circle_to_chordal(self.x, self.true.geo_scale) if self.kind == "latlon"
             else self.x)
@@ -703,8 +735,7 @@ class Machine:
         if not np.all(np.abs(got - ref) <= 1e-3 * sill):
             raise Violation("C10.recovery.curve", maxdiff=maxdiff(got, ref), cls=t["cls"])
         # parameters: identifiable selections only (bins reach below and beyond the range)
-        if t["cls"] in ("Gaussian", "Exponential", "Spherical", "Cubic", "Circular", "Stable",
-                        "Matern", "HyperSpherical") and len(self.x) >= 10:
+        if t["cls"] in SMOOTH and len(self.x) >= 10:
             for name in ["var", "len_scale", "nugget"]:
                 if exp.fitted[name] or (exp.constrain and name == "nugget"):
                     if abs(post[name] - t[name]) > 2e-2 * max(abs(t[name]), 0.05 * sill):
